@@ -90,22 +90,6 @@ fn render(r: &Result<String, String>) -> String {
 /// Compare the outputs of a definition under the given key draws. Returns per-draw outputs too.
 fn check_definition(src: &str, draws: &[[u8; 16]]) -> (Vec<ThreadOut>, Option<Violation>) {
     let outs: Vec<ThreadOut> = draws.iter().map(|k| simulated_thread(src, *k)).collect();
-    // D7, clock: the first key draw again on machines whose clock jumps 1 ms / 1 min with every read
-    for step in CLOCK_STEPS {
-        let o = simulated_thread_clock(src, draws[0], *step);
-        for (oracle, a, b) in [("D7-clock", render(&outs[0].gen), render(&o.gen)), ("D7-clock", render(&outs[0].strip), render(&o.strip))] {
-            if a != b {
-                let at = first_diff(&a, &b);
-                let v = Violation {
-                    oracle,
-                    what: format!("the output differs between the real clock and a clock that advances {} ns per read ({} clock reads were made; first difference at byte {} of {} / {}): the output depends on elapsed time", step, o.clock_reads, at, a.len(), b.len()),
-                    keys_a: draws[0], keys_b: draws[0], first_diff: at, context_a: ctx(&a, at), context_b: ctx(&b, at),
-                };
-                return (outs, Some(v));
-            }
-        }
-        CLOCK_READS.fetch_add(o.clock_reads as u64, std::sync::atomic::Ordering::Relaxed);
-    }
     for i in 1..outs.len() {
         for (oracle, a, b) in [("D1-generate", render(&outs[0].gen), render(&outs[i].gen)), ("D1-strip", render(&outs[0].strip), render(&outs[i].strip))] {
             if a != b {
@@ -121,6 +105,23 @@ fn check_definition(src: &str, draws: &[[u8; 16]]) -> (Vec<ThreadOut>, Option<Vi
                 return (outs, Some(v));
             }
         }
+    }
+    // D7, clock: (after the key draws, so that a difference that has nothing to do with the clock is reported as what it is) the first key
+    // draw again on machines whose clock jumps 1 ms / 1 min with every read
+    for step in CLOCK_STEPS {
+        let o = simulated_thread_clock(src, draws[0], *step);
+        for (oracle, a, b) in [("D7-clock", render(&outs[0].gen), render(&o.gen)), ("D7-clock", render(&outs[0].strip), render(&o.strip))] {
+            if a != b {
+                let at = first_diff(&a, &b);
+                let v = Violation {
+                    oracle,
+                    what: format!("the output differs between the real clock and a clock that advances {} ns per read ({} clock reads were made; first difference at byte {} of {} / {}): the output depends on elapsed time", step, o.clock_reads, at, a.len(), b.len()),
+                    keys_a: draws[0], keys_b: draws[0], first_diff: at, context_a: ctx(&a, at), context_b: ctx(&b, at),
+                };
+                return (outs, Some(v));
+            }
+        }
+        CLOCK_READS.fetch_add(o.clock_reads as u64, std::sync::atomic::Ordering::Relaxed);
     }
     (outs, None)
 }
